@@ -1122,7 +1122,13 @@ func (c *Conn) handleBdat(arg string) {
 		// Backend might return an error early using CloseWithError without consuming
 		// the whole chunk.
 		io.Copy(ioutil.Discard, chunk)
+	}
 
+	// The chunk is through, what follows is a command line again, be it
+	// the next BDAT.
+	c.lineLimitReader.LineLimit = c.server.MaxLineLength
+
+	if err != nil {
 		if last && c.server.LMTP {
 			// The final response to BDAT LAST is one reply per recipient.
 			c.bdatStatus.fillRemaining(err)
@@ -1141,15 +1147,12 @@ func (c *Conn) handleBdat(arg string) {
 		}
 
 		c.reset()
-		c.lineLimitReader.LineLimit = c.server.MaxLineLength
 		return
 	}
 
 	c.bytesReceived += int64(size)
 
 	if last {
-		c.lineLimitReader.LineLimit = c.server.MaxLineLength
-
 		pipe.Close()
 
 		err := <-c.dataResult
